@@ -694,16 +694,20 @@ def tie_grammars(rng, n):
     out = []
     out.append(('tie-witness', '%start A\n%%\nA: "a" "b" | "a" "c" | "d" "e" | "d" "f";\n'))
     out.append(('tie-witness-2', '%start S\n%%\nS: A B;\nA: "a" "b" | "a" "c" | "d" "e" | "d" "f" | "g";\nB: "x" A | "x" B | "y" A | "y" "z";\n'))
+    # ties between groups that only differ AFTER a common prefix (length 1 and 2)
+    out.append(('tie-witness-3', '%start A\n%%\nA: "x" "a" "b" | "x" "a" "c" | "x" "d" "e" | "x" "d" "f";\n'))
+    out.append(('tie-witness-4', '%start A\n%%\nA: "x" "y" "a" "b" | "x" "y" "a" "c" | "x" "y" "d" "e" | "x" "y" "d" "f" | "q";\n'))
     for i in range(n):
         nts = ['S', 'T', 'U'][:rng.randint(1, 3)]
         s = '%start S\n%%\n'
         for nt in nts:
             heads = rng.sample(['"a"', '"b"', '"c"', '"d"', "'e'"], rng.randint(2, 4))
+            common = ' '.join(rng.sample(['"p"', '"q"', '"r"'], rng.choice([0, 0, 1, 2])))
             alts = []
             for h in heads:
                 for j in range(rng.randint(1, 3)):
                     tail = ' '.join(rng.choice(['"x"', '"y"', '"z"', rng.choice(nts)]) for _ in range(rng.randint(1, 2)))
-                    alts.append(h + ' ' + tail + ' "%d"' % j)
+                    alts.append((common + ' ' if common else '') + h + ' ' + tail + ' "%d"' % j)
             rng.shuffle(alts)
             s += nt + ': ' + ' | '.join(dict.fromkeys(alts)) + ';\n'
         out.append(('tie-gen-%d' % i, s))
